@@ -254,7 +254,8 @@ def load_known(prop):
 
 def match_known(known, key):
     for e in known:
-        if key == e['key'] or fnmatch.fnmatchcase(key, e['key']):
+        pats = e['key'] if isinstance(e['key'], list) else [e['key']]
+        if any(key == p or fnmatch.fnmatchcase(key, p) for p in pats):
             return e
     return None
 
@@ -285,7 +286,7 @@ def finish(prop, tier, result, level, rule, t0, coverage=None, assumptions=None,
     for v in result.violations:
         e = match_known(known, v['key'])
         if e is not None:
-            seen_known.setdefault(e['key'], (e, v))
+            seen_known.setdefault(_kid(e), (e, v))
         else:
             new.setdefault(v['key'], v)
     code = 0
@@ -322,7 +323,7 @@ def finish(prop, tier, result, level, rule, t0, coverage=None, assumptions=None,
     for k, n in sorted(result.counts.items()):
         cov.setdefault(k, n)
     cov['known_findings_seen'] = sorted(seen_known)
-    cov['known_findings_listed_open'] = sorted(e['key'] for e in known)
+    cov['known_findings_listed_open'] = sorted(_kid(e) for e in known)
     if result.notes:
         cov['notes'] = result.notes[:20]
     ev = dict(property_id=prop, tier=tier, seed=seed(), level=level, coverage=cov,
@@ -338,6 +339,10 @@ def finish(prop, tier, result, level, rule, t0, coverage=None, assumptions=None,
           % (prop, tier, seed(), cov['evaluations'], cov['distinct_nontrivial'], len(new),
              len(seen_known), time.time() - t0))
     return code
+
+
+def _kid(e):
+    return e['key'] if isinstance(e['key'], str) else ' || '.join(e['key'])
 
 
 def _clip(o, n=600):
